@@ -14,6 +14,7 @@ mod c11;
 mod c12;
 mod c13;
 mod c14;
+mod c16;
 mod c17;
 mod keys;
 mod sign;
@@ -108,6 +109,7 @@ fn oracle(prop: &str, op: &[&str], out: &str) -> Verdict {
         "C02" => c02::oracle(op, out),
         "C09" => c09::oracle(op, out),
         "C17" => c17::oracle(op, out),
+        "C16" => c16::oracle(op, out),
         "C13" => c13::oracle(op, out),
         "C01" => c01::oracle_c01(op, out),
         "C08" => c01::oracle_c08(op, out),
@@ -130,6 +132,7 @@ fn generate(prop: &str, tier: &str, rng: &mut util::Prng) -> Vec<Case> {
         "C02" => c02::generate(tier, rng),
         "C09" => c09::generate(tier, rng),
         "C17" => c17::generate(tier, rng),
+        "C16" => c16::generate(tier, rng),
         "C13" => c13::generate(tier, rng),
         "C01" => c01::generate_c01(tier, rng),
         "C08" => c01::generate_c08(tier, rng),
